@@ -92,11 +92,13 @@ def gen_c14(rng, profile):
             if profile["batch"] == "abort_enum":
                 enum = {"target": target, "stride": profile.get("stride", 7),
                         "max_execs": profile.get("enum_max_execs", 40),
+                        "max_wall": profile.get("enum_max_wall", 75.0),
                         "offset": rng.randint(0, 10 ** 6)}
             else:
                 enum = {"mode": "preempt", "target": target,
                         "cap_gen": profile.get("cap_gen", 25) * 2,
-                        "cap_gstate": profile.get("cap_gstate", 40)}
+                        "cap_gstate": profile.get("cap_gstate", 40),
+                        "max_wall": profile.get("enum_max_wall", 75.0)}
             return {"prop": "C14", "spec": spec2, "ops": ops, "opts": {"knobs": kn, "enum": enum}}
     if profile.get("batch") == "conc_enum":
         from . import family as F
@@ -121,7 +123,8 @@ def gen_c14(rng, profile):
             return {"prop": "C14", "spec": spec, "ops": ops,
                     "opts": {"knobs": kn, "enum": {"mode": "preempt", "target": pos,
                                                    "cap_gen": profile.get("cap_gen", 25),
-                                                   "cap_gstate": profile.get("cap_gstate", 40)}}}
+                                                   "cap_gstate": profile.get("cap_gstate", 40),
+                        "max_wall": profile.get("enum_max_wall", 75.0)}}}
         return {"prop": "C14", "spec": spec, "ops": ops, "opts": {"knobs": kn}}
     if profile.get("batch") == "abort_enum":
         kn["aborts"] = False
@@ -145,6 +148,7 @@ def gen_c14(rng, profile):
             return {"prop": "C14", "spec": spec, "ops": ops,
                     "opts": {"knobs": kn, "enum": {"target": target, "stride": stride,
                                                    "max_execs": profile.get("enum_max_execs", 40),
+                                                   "max_wall": profile.get("enum_max_wall", 75.0),
                                                    "offset": rng.randint(0, 10 ** 6)}}}
     else:
         ops = gen.gen_history(rng, spec, kn)
@@ -279,8 +283,10 @@ def execute_search(case):
     enum = (case.get("opts") or {}).get("enum")
     if not enum:
         return execute(case), case, 1
+    import time as _time
+    t_end = _time.time() + enum.get("max_wall", 75.0)
     if enum.get("mode") == "preempt":
-        return execute_preempt_enum(case, enum)
+        return execute_preempt_enum(case, enum, t_end)
     target, stride = enum["target"], enum["stride"]
     probe = dict(case)
     probe["opts"] = {}
@@ -296,6 +302,9 @@ def execute_search(case):
     ngen = ex0.op_gen_steps.get(target, 0)
     total.stats["enum_gen_lines"] = total.stats.get("enum_gen_lines", 0) + min(ngen, 80)
     for k in range(1, min(ngen, 80) + 1):
+        if _time.time() > t_end:
+            total.stats["enum_cut_by_wall"] = total.stats.get("enum_cut_by_wall", 0) + 1
+            break
         c = dict(probe)
         ops = [dict(o) for o in case["ops"]]
         ops[target]["abort_gen"] = k
@@ -312,6 +321,8 @@ def execute_search(case):
     gsteps = ex0.op_gsteps.get(target, [])[:100]
     total.stats["enum_gstate_lines"] = total.stats.get("enum_gstate_lines", 0) + len(gsteps)
     for k in gsteps:
+        if _time.time() > t_end:
+            break
         c = dict(probe)
         ops = [dict(o) for o in case["ops"]]
         ops[target]["abort_at"] = k
@@ -327,6 +338,8 @@ def execute_search(case):
     stride = max(stride, nsteps // enum.get("max_execs", 150))
     total.stats["enum_stride_max"] = stride
     for k in range(1 + enum.get("offset", 0) % stride, nsteps + 1, stride):
+        if _time.time() > t_end:
+            break
         c = dict(probe)
         ops = [dict(o) for o in case["ops"]]
         ops[target]["abort_at"] = k
@@ -341,7 +354,7 @@ def execute_search(case):
     return total, probe, execs
 
 
-def execute_preempt_enum(case, enum):
+def execute_preempt_enum(case, enum, t_end=None):
     """Schedule enumeration with preemption bound 1: for one concurrent batch,
     every thread in turn runs first and is pre-empted once at its k-th
     generated-code line (k = 1..cap) and at its k-th line inside a function that
@@ -358,6 +371,9 @@ def execute_preempt_enum(case, enum):
     for what, cap in (("gstate", enum.get("cap_gstate", 80)), ("gen", enum.get("cap_gen", 60))):
         for tid in range(nthreads):
             for at in range(1, cap + 1):
+                if t_end is not None and __import__("time").time() > t_end:
+                    total.stats["enum_cut_by_wall"] = total.stats.get("enum_cut_by_wall", 0) + 1
+                    return total, probe, execs
                 c = dict(probe)
                 ops = [dict(o) for o in case["ops"]]
                 ops[target] = dict(ops[target])
